@@ -1,6 +1,7 @@
 import Py4hwV.Drv.Proto
 import Py4hwV.Lib.Seq
 import Py4hwV.Lib.SeqNet
+import Py4hwV.Lib.SeqNetM
 /- C09 driver: runs the block models (Lib.*) and the reference machines (Lib.Spec.*) on an input history.
      run <Block> | <params> | <step>;<step>;...          (each step: comma separated ints)
    answer:  <model trace> | <spec trace> [| <extra>]     trace = steps joined by ';', a step = outputs before the edge
@@ -13,7 +14,9 @@ import Py4hwV.Lib.SeqNet
      DualPort aw,dw / ra_a,wa_a,we_a,wd_a,ra_b,wa_b,we_b,wd_b
      AutoReset (no params) / 0
      net <Block> | <params> |          -> the netlist builder of Lib/SeqNet.lean rendered (kinds | regs | order | widths)
-       TReg hasE,hasR   Counter w,hasReset,hasInc   StepUp w,sw,hasReset,hasInc   Delay w,delay,hasEn,hasReset   Edge dir   Srb w,depth   Stack w,depth   Pipe w0,w1,.. -/
+       TReg hasE,hasR   Counter w,hasReset,hasInc   StepUp w,sw,hasReset,hasInc   Delay w,delay,hasEn,hasReset   Edge dir   Srb w,depth   Stack w,depth   Pipe w0,w1,..   Reg w,dw,cw,rv,hasE,hasR
+     netm <Block> | <params> | <live schedule>   -> builder of Lib/SeqNetM.lean rendered (leaves | regs | widths) | okb of the instance
+       Mod w,n   Div n,qw,hasReset -/
 open Proto Lib
 
 def g (l : List Int) (k : Nat) : Int := l.getD k 0
@@ -70,6 +73,12 @@ def handle (line : String) : String :=
     | ["run", "DualPort"] =>
       both (dualPort (gn p 0) (gn p 1)) (Spec.dualPort (gn p 1)) two
         (h.map fun s => ⟨⟨gn s 0, gn s 1, gn s 2, gn s 3⟩, ⟨gn s 4, gn s 5, gn s 6, gn s 7⟩⟩)
+    | ["netm", "Mod"] =>
+      let K := C09M.modNet (gn p 0) (gn p 1) ((parseInts hs).map Int.toNat)
+      s!"{K.render} | {showBool K.okb}"
+    | ["netm", "Div"] =>
+      let K := C09M.divNet (gn p 0) (gn p 1) (gb p 2) ((parseInts hs).map Int.toNat)
+      s!"{K.render} | {showBool K.okb}"
     | ["net", "TReg"] => (C09N.tregNet (gb p 0) (gb p 1)).render
     | ["net", "Counter"] => (C09N.counterNet (gn p 0) (gb p 1) (gb p 2)).render
     | ["net", "Delay"] => (C09N.delayNet ⟨gn p 0, gn p 1, gb p 2, gb p 3⟩).render
@@ -77,6 +86,7 @@ def handle (line : String) : String :=
     | ["net", "Srb"] => (C09N.srbNet (gn p 0) (gn p 1)).render
     | ["net", "Stack"] => (C09N.stackNet (gn p 0) (gn p 1)).render
     | ["net", "Pipe"] => (C09N.pipeNet (p.map Int.toNat)).render
+    | ["net", "Reg"] => (C09N.regNet (gn p 0) (gn p 1) (gn p 2) (gn p 3) (gb p 4) (gb p 5)).render
     | ["net", "StepUp"] => (C09N.stepNet (gn p 0) (gn p 1) (gb p 2) (gb p 3)).render
     | ["run", "AutoReset"] =>
       both autoReset Spec.autoReset one (h.map fun _ => ())
